@@ -86,9 +86,10 @@ def check_cases(cases: list[dict], rep: Report, known: dict) -> None:
                     rep.violation(f"an expression returned earlier changed after operation {k} ({op['op']}): {snap[1][:200]}", info)
                     ok = False
             for j, P in hist.pobjs.items():
-                i, x = hist.pobj_src[j]
-                if not (P == sm.Partial(copies[i], x)) or repr(P) != repr(sm.Partial(copies[i], x)):
-                    rep.violation(f"persistent Partial {j} changed after operation {k} ({op['op']})", info)
+                i, x, kind = hist.pobj_src[j]
+                twin = H.make_obj(kind[0], copies[i], x)
+                if not (P == twin) or repr(P) != repr(twin):
+                    rep.violation(f"persistent {type(P).__name__} {j} changed after operation {k} ({op['op']})", info)
                     ok = False
             if not ok:
                 break
